@@ -718,6 +718,13 @@ pub fn h431_for(c: &Case) -> usize {
 /// and every handler in front of it answers at once (a response produced while a LATER request's
 /// body is in flight takes the close-for-unread-payload path, which belongs to C03).
 pub fn normalize(c: &mut Case) {
+    if stalled_first(c) {
+        // the first request has no body and its handler never answers and never touches a payload:
+        // no response is ever produced, so the close-for-unread-payload path cannot be taken and
+        // every later request (with or without body) only ever sits in the queue -- modelled as is
+        clip_rounds(c);
+        return;
+    }
     let mut seen_body = false;
     for it in c.items.iter_mut() {
         let is_body = matches!(it, Item::Req { b: Some(_), .. } | Item::Chunked { .. });
@@ -756,6 +763,19 @@ pub fn normalize(c: &mut Case) {
             }
         }
     }
+    clip_rounds(c);
+}
+
+/// class of the pipelined-bodies family (a predicate on the case): the first request carries no
+/// body and its handler only ever returns Pending; every other item is a well-formed request
+pub fn stalled_first(c: &Case) -> bool {
+    matches!(c.items.first(), Some(Item::Req { b: None, h }) if *h < MAXB)
+        && c.handlers.first().is_some_and(|h| h.iter().all(|a| matches!(a, HAct::Pend | HAct::Wait)))
+        && c.items.iter().all(|i| matches!(i, Item::Req { .. } | Item::Chunked { .. }))
+        && c.items.iter().any(|i| matches!(i, Item::Req { b: Some(_), .. } | Item::Chunked { .. }))
+}
+
+fn clip_rounds(c: &mut Case) {
     if !c.items.iter().any(|i| matches!(i, Item::Endless)) {
         let total: usize = c.items.iter().map(|i| if matches!(i, Item::Bad) { BAD_REQ.len() } else { item_lens(i).map_or(0, |l| l.1) }).sum();
         let mut left = total;
